@@ -1,4 +1,5 @@
 import ZarrsModel.Driver.C01
+import ZarrsModel.Model.IndexEntry
 /- driver handler for C15: judge the corruption tallies reported by the harness by the protection level of the case -/
 namespace Zarrs.DriverC15
 open Zarrs Zarrs.Proto
@@ -19,9 +20,11 @@ def setField (toks : List String) (k v : String) : List String :=
 def getField (toks : List String) (k : String) : Option String :=
   (toks.find? (·.startsWith (k ++ "="))).map (fun t => (t.drop (k.length + 1)).toString)
 
-/-- is the index entry (off, size) live and outside a value of `len` bytes (also when off+size ≥ 2^64)? -/
-def entryOutOfBounds (off size len : Nat) : Bool :=
-  !(off == 18446744073709551615 && size == 18446744073709551615) && off + size > len
+/-- is the index entry (off, size) live and outside a value of `len` bytes (also when off+size ≥ 2^64)?
+The executable `Nat` form `IndexEntry.entryOutOfBoundsNat`; `C15Entry.classify_err_iff_nat` / `entryBadChecked_iff_nat`
+(Props/C15Entry.lean) prove it is, for every triple of `u64`, the verdict of the code's
+`offset.checked_add(size).is_none_or(|end| end > len)` behind its sentinel test -/
+def entryOutOfBounds (off size len : Nat) : Bool := IndexEntry.entryOutOfBoundsNat off size len
 
 /-- the codec names at the top level of a chain description (`shard[…]` contents removed) -/
 def topTokens (chain : String) : List String :=
